@@ -40,7 +40,7 @@ func c13(tier string) int {
 func c14(tier string) int {
 	plans := []seq.Plan{
 		{Family: "disk", Params: "keys=1,slots=2,gc=1", From: 1, To: 6},
-		{Family: "disk", Params: "keys=2,slots=2,levels=RC.RR", From: 1, To: 4},
+		{Family: "disk", Params: "keys=2,slots=2,levels=RC.RR,gc=1", From: 1, To: 4},
 		{Family: "disk", Params: "keys=1,slots=2,levels=RC.RR,close=1", From: 1, To: 4},
 	}
 	if tier == "thorough" {
